@@ -99,8 +99,9 @@ TABLE['C17'] = {
     'bounded_hook': 'pyvc.bounded_native',
     'bound': 'all histories of up to 3 operations (4 in the thorough tier) over 21 operations: assignments of two counting handles and a pre-populated map under the keys a, a/b, b-1 (not an identifier), __p (private name), a falsy handle under a, pushing a handle layer on the root or on a, the same handle stored under a second name, a snapshot taken in the middle of the history, clear() of the root and of the sub-map a; each followed by a full comparison of get_static_map() with the map (item, attribute and get access at every node, no name in the snapshot that the map lacks, setattr/delattr on every node)',
     'trusted_base': T_STATE,
-    'assumptions': ['names that collide with members of StaticResourceMap are excluded (as in the statement)'],
-    'explanation': 'Immutability (__setattr__/__delattr__ raise unconditionally and change nothing) is discharged deductively. The mirror clause (get_static_map builds a class with __slots__ per map, recursively) is outside the verifier subset and is checked by the BOUNDED native stand-in only: not proved.',
+    'assumptions': ['names that collide with members of StaticResourceMap are excluded (as in the statement)',
+                    'snap_ok: the attribute table of every snapshot is as get_static_map builds it (assumed by the access-method contracts; get_static_map itself is checked by the bounded oracle only)'],
+    'explanation': 'Discharged deductively: immutability (__setattr__/__delattr__ raise unconditionally and change nothing) and the three access methods (__getattribute__, __getitem__, get; a handle-name and an other-name variant each) against the ghost attribute table of the snapshot. The mirror clause proper (get_static_map builds a class with __slots__ per map, recursively, and fills the table) is outside the verifier subset and is checked by the BOUNDED native stand-in only: not proved.',
 }
 
 TABLE['C14'] = {
